@@ -205,6 +205,8 @@ func checkMain(args []string) {
 	var recs []obRecord
 	var solverTime float64
 	nOb, nDis, nCanary, nCanaryOK := 0, 0, 0, 0
+	loopEdges := map[string]int{}
+	deadEdges := map[string][]string{}
 	bySolver := map[string]int{}
 	seen := map[string]bool{}
 	var samples []map[string]any
@@ -218,6 +220,19 @@ func checkMain(args []string) {
 		seen[full] = true
 		solverTime += j.res.TimeS
 		recs = append(recs, obRecord{Name: full, Kind: ob.Kind, Func: ob.Func, Status: j.res.Status, Solver: j.res.Solver, TimeS: j.res.TimeS, Cross: j.res.Cross})
+		if ob.MustSat && strings.Contains(full, "/cover/loop") {
+			// back edges: a single one may be dead code under the assumed type invariants (e.g. "if elem == nil
+			// { continue }" over a repeated protobuf field); the loop is vacuous only if none is reachable
+			key := full
+			if i := strings.Index(key, "/back-edge"); i >= 0 {
+				key = key[:i]
+			}
+			loopEdges[key]++
+			if j.res.Status == "unsat" {
+				deadEdges[key] = append(deadEdges[key], full)
+			}
+			continue
+		}
 		if ob.MustSat {
 			nCanary++
 			if j.res.Status == "unsat" {
@@ -283,6 +298,18 @@ func checkMain(args []string) {
 			violations++
 		}
 	}
+	var deadList []string
+	for key, n := range loopEdges {
+		nCanary++
+		if len(deadEdges[key]) == n {
+			fmt.Printf("CHECK-BROKEN property=%s vacuity guard %s: no end of the loop body is reachable under the assumptions (contradictory invariants?)\n", *prop, key)
+			broken++
+		} else {
+			nCanaryOK++
+		}
+		deadList = append(deadList, deadEdges[key]...)
+	}
+	sort.Strings(deadList)
 	if nOb == 0 {
 		fmt.Printf("CHECK-BROKEN property=%s no obligations generated\n", *prop)
 		broken++
@@ -307,6 +334,7 @@ func checkMain(args []string) {
 			"load_s":                 loadS,
 			"vcgen_s":                genS,
 			"vacuity_guards":         map[string]int{"canaries_and_covers": nCanary, "satisfiable_as_required": nCanaryOK},
+			"unreachable_loop_exits_under_assumed_type_invariants": deadList,
 			"uncontracted_callees_havoced": sortedSet(uncontr),
 			"bounded_standins":       sortedSet(bounded),
 			"contract_files":         eng.contracts.Files,
